@@ -149,9 +149,10 @@ def op_frame(f):
                     elif k == "U":
                         p["F"].fingerprint_uptime(pkt, last, options=opts)
                     elif k == "I":
-                        ret = p["I"].impersonate_tcp(pkt, raw_signature=bytes.fromhex(a[2]).decode("latin-1"))
+                        ret = p["I"].impersonate_tcp(pkt, raw_signature=bytes.fromhex(a[2]).decode("latin-1"), extra_hops=int(a[3]) if len(a) > 3 and a[3] else 0)
                     elif k == "K":
-                        ret = p["I"].impersonate_tcp(pkt, raw_label=bytes.fromhex(a[2]).decode("latin-1"), database=db)
+                        ret = p["I"].impersonate_tcp(pkt, raw_label=bytes.fromhex(a[2]).decode("latin-1"), database=db, extra_hops=int(a[3]) if len(a) > 3 and a[3] else 0,
+                                                     uptime=12345 if len(a) > 3 and a[3] == "2" else None)
                     elif k == "J":
                         ret = p["I"].impersonate_mtu(pkt, raw_signature=a[2])
                 except impl.Hang:
